@@ -16,6 +16,7 @@ CHECKS = {
     'C04': 'harness.c04',
     'C11': 'harness.c11',
     'C05': 'harness.c05',
+    'C06': 'harness.c06',
     'C10': 'harness.c10',
     'C12': 'harness.c12',
 }
